@@ -155,4 +155,20 @@ theorem C08_tmerc_sphere_inv (c : TmercC ℝ) (hs : c.sr.sphere = true) (hak : 0
       show ¬ (A < 0) from not_lt.mpr ha0, e1, adjustLon_id hlon]
     rw [abs_of_nonneg hsl, arcsin_sin (by linarith) (by linarith)]
 
+/-- **utm_sphere_inv**: UTM on a sphere is the spherical transverse Mercator with `lat_0 = 0`,
+`lon_0 = (6·|zone| − 183)·deg2rad`, `k0 = 0.9996` (the constructor overwrites the record and calls `TMerc`): for every
+zone and every `a > 0` the constructor succeeds and inverse(forward(λ, φ)) = (λ, φ) under the conditions of
+`C08_tmerc_sphere_inv` stated with the zone's central meridian. -/
+theorem C08_utm_sphere_inv (s : SR ℝ) (hs : s.sphere = true) (ha : 0 < s.a) :
+    ∃ c : TmercC ℝ, initUtm s = .ok c ∧ c.sr.long0 = (6.0 * |s.zone| - 183.0) * deg2rad ∧ c.sr.k0 = 0.9996 ∧
+      c.sr.lat0 = 0 ∧
+      ∀ lon lat : ℝ, |lat| < π / 2 → |cos lat * sin (lon - c.sr.long0)| ≤ 1 - 1.0e-10 → |lon| ≤ sPi →
+        |lon - c.sr.long0| ≤ sPi → -π < lon - c.sr.long0 → lon - c.sr.long0 ≤ π →
+        (fwdTmerc c lon lat).bind (fun q => invTmerc c q.1 q.2) = .ok (lon, lat) := by
+  refine ⟨_, by simp only [initUtm, isNaN_real, Bool.false_eq_true, if_false, initTmerc]; rfl, rfl, rfl, by norm_num, ?_⟩
+  intro lon lat h1 h2 h3 h4 h5 h6
+  apply C08_tmerc_sphere_inv _ hs _ lon lat h1 h2 h3 h4 h5 h6
+  show 0 < s.a * 0.9996
+  exact mul_pos ha (by norm_num)
+
 end GeomV.C08
